@@ -408,11 +408,16 @@ func c04Serialisation(c *Ctx) {
 				if !isD || !deferRecovers(d) {
 					continue
 				}
-				mc, _ := d.Call.Value.(*ssa.MakeClosure)
-				if mc == nil {
+				var handler *ssa.Function
+				if mc, _ := d.Call.Value.(*ssa.MakeClosure); mc != nil {
+					handler = mc.Fn.(*ssa.Function)
+				} else if sc := d.Call.StaticCallee(); sc != nil && len(sc.Blocks) > 0 {
+					handler = sc // a directly deferred method that calls recover() itself
+				}
+				if handler == nil {
 					continue
 				}
-				for _, call := range an.CallsIn(mc.Fn.(*ssa.Function), func(ci ssa.CallInstruction, info an.CalleeInfo) bool {
+				for _, call := range an.CallsIn(handler, func(ci ssa.CallInstruction, info an.CalleeInfo) bool {
 					return info.FullName() == "(*"+pkgTransport+"."+wsConn+").sendError" && recoveredNonNil(ci)
 				}) {
 					_ = call
